@@ -549,7 +549,14 @@ def run_case(case):
     while len(ops_out) < n and attempts < 6 * n + 20:
         attempts += 1
         if gen:
-            op = gen_op(rng, m, H, ftab, gen["profile"], filtered, avoid)
+            try:
+                op = gen_op(rng, m, H, ftab, gen["profile"], filtered, avoid)
+            except BaseException as e:
+                # the generator only walks live objects through the public interface:
+                # an exception here means the model is in an inconsistent state
+                fails.append({"step": max(0, len(ops_out) - 1), "kind": "inconsistent-state",
+                              "detail": "walking the live objects raised %s: %s" % (type(e).__name__, str(e)[:160])})
+                break
             if op is None:
                 continue
         else:
